@@ -1370,6 +1370,14 @@ def dedupe_cases(cases):
 def run(ctx):
     from concurrent.futures import ThreadPoolExecutor
     if shutil.which("sqlite3") is None:
+        # the command line tool ships with the python installations of this image; a bare environment
+        # (fresh restore, cron-like PATH) may not list their bin directories
+        for d in (os.path.join(sys.prefix, "bin"), os.path.dirname(sys.executable), "/root/miniconda/bin",
+                  "/usr/bin", "/usr/local/bin", "/opt/conda/bin"):
+            if os.path.exists(os.path.join(d, "sqlite3")):
+                os.environ["PATH"] = os.environ.get("PATH", "") + os.pathsep + d
+                break
+    if shutil.which("sqlite3") is None:
         raise MachineryError("the sqlite3 command line tool (required by array2table / dict2table) is not on PATH")
     T = TIERS[ctx.tier]
     only = getattr(ctx, "only", None) or set()
